@@ -44,6 +44,18 @@ def sylvester(w, S, ldS, Sx, ldSx, M, LxMLM):
         Sy = S[:, None] + Sx[None]
     else:
         Sy = S[:, None] + xp.einsum("aij,bjk,alk->abil", M, Sx, M)
+    if w.symbolic:
+        from . import matrices as MX
+        try:
+            MX._matrix_axes(Sy.fresh_copy())
+        except MX.ScalarMatrix:
+            # Dy = 1: the left-hand side is the logarithm of a scalar; the same lemma, read from right to left, gives
+            # the log-determinant of the Dx x Dx matrix:  ln det(Lx + M' L M) = ln(S + M Sx M') - ldS - ldSx
+            val = xp.log(Sy[..., 0, 0]) - ldS[:, None] - ldSx[None]
+            w.ld_rule(LxMLM, val, "GtvLemmas.det_add_mul_mul_transpose")
+            return Sy, xp.log(Sy[..., 0, 0])
+        except MX.BlockMatrix:
+            pass
     val = ldS[:, None] + ldSx[None] + w.logdet(LxMLM)
     w.ld_rule(Sy, val, "GtvLemmas.det_add_mul_mul_transpose")
     return Sy, val
